@@ -6,7 +6,7 @@ def prop(pid, **kw):
 
 prop("C01",
      level="exploration",
-     tests=[dict(name="TestC01", quick=1500, thorough=12000)],
+     tests=[dict(name="TestC01", quick=1500, thorough=4000)],
      rule="rapid-generated KV histories (1-40 steps: write transactions of 1-5 Put/PutWithTimestamp/Delete over 2-3 buckets and a drawn key universe (70% 2-7 keys; 25% 'wide' 8-30 keys and 5% 'bulk' 40-90 keys in one bucket, so that the order-8 B+ trees have several leaves and levels and range bounds fall between leaves; transactions of up to 8/20 calls there), reopen steps; both RAM index modes x RWMode x loading mode x sync x segment size 120..8192) checked after every step against an ordered-map-with-TTL model by a systematic read battery (Get of every key, GetAll, PrefixScan of every key prefix, RangeScan, drawn RangeScan/PrefixSearchScan). A case is non-trivial when at least one segment rotation happened and the history deleted a previously written key or left an expired key next to a live one in the same bucket; distinct = distinct case JSON (hashed).",
      assumptions=["expiry instants are at least 10^6 s away from the wall clock (valid until 2033)",
                   "the reference model (model_test.go) is correct"])
@@ -14,7 +14,7 @@ prop("C01",
 prop("C05",
      level="exploration", engine="E1+E2",
      tests=[dict(name="TestC05Enum", quick=1, thorough=1, shardable=False),
-            dict(name="TestC05", quick=1200, thorough=15000)],
+            dict(name="TestC05", quick=1200, thorough=4000)],
      rule="(E2) exhaustive: every ds/list state of <=4 (thorough: <=5) elements over the values {\"\",a,|,a|b} x every operation instance (push/pop/peek/size, LRange/LTrim with both bounds in -n-2..n+1, LRem/LSet with every count/index in that range and every value), result AND resulting list compared with the Redis-style model through tolerant outcome sets; (E1) rapid histories of 1-60 single-call transactions on 1-3 list keys in 1-2 buckets with reopen steps, every call compared with the model and LRange(0,-1)/LSize/LPeek/RPeek re-read after every step. Non-trivial: applied to a non-empty list with a negative or out-of-range index/count or a value containing '|'.",
      assumptions=["out-of-range bounds may be clamped (Redis) or reported as an error with the list unchanged; both are accepted, panics are not",
                   "list keys do not contain '|' (the API rejects them)"],
@@ -23,7 +23,7 @@ prop("C05",
 prop("C06",
      level="exploration", engine="E1+E2",
      tests=[dict(name="TestC06Enum", quick=1, thorough=1, shardable=False),
-            dict(name="TestC06", quick=1200, thorough=15000)],
+            dict(name="TestC06", quick=1200, thorough=4000)],
      rule="(E2) exhaustive: two set keys, each absent or holding any subset of {\"\",a,b} (81 states) x every ds/set operation instance (SAdd/SRem with one or two items, SPop, SMove between every key pair, SIsMember, SAreMembers, SMembers, SCard, SHasKey, SDiff, SUnion, SInter), result and resulting sets compared with the set model; (E1) rapid histories of 1-50 single-call transactions over 1-3 keys in 1-2 buckets (all Tx set APIs incl. SMoveByOneBucket/TwoBuckets, SPop validity predicate) with reopen steps, all sets re-read after every step and after every reopen. Non-trivial: history with a reopen after an SMove/SPop, or an empty or repeated member.",
      assumptions=["SMove of an item that is not in the source: no-op/false, error, or the current behaviour (added to the destination) are all accepted (README is silent)",
                   "known finding c06-empty-member-unremovable is applied as a named model deviation"],
@@ -32,7 +32,7 @@ prop("C06",
 prop("C07",
      level="exploration", engine="E1+E2",
      tests=[dict(name="TestC07Enum", quick=2, thorough=4, timeout_quick=900),
-            dict(name="TestC07", quick=1500, thorough=15000)],
+            dict(name="TestC07", quick=1500, thorough=4000)],
      rule="(E2) exhaustive: every sorted set over member keys {\"\",a,b,c} each absent or scored in {-1,0,1,2} (625 states) x several skiplist layouts (math/rand seeds, insertion orders, re-scored members) x every operation instance (Put with every key/score, Remove, pops, peeks, GetByScoreRange with every bound pair in -2..3 x exclusive flags x limits 0..2 and nil options, GetByRankRange with every rank pair in -6..6 with and without removal, FindRank/FindRevRank/GetByKey); result, resulting membership, dict/rank-walk/size agreement and FindRank/GetByRank of every member checked against a (score,key)-ordered model; (E1) rapid histories of 1-50 single-call transactions through every Tx sorted-set API with reopen steps. Non-trivial: at least two members share a score, or the empty key is a member, or a reversed range lies below every score.",
      assumptions=["rank 0 and ranks beyond the size are unspecified: queries must still return only current members in rank order, mutating calls use in-domain ranks",
                   "known finding c07-zrem-empty-key is applied as a named model deviation"],
@@ -40,27 +40,27 @@ prop("C07",
 
 prop("C02",
      level="exploration",
-     tests=[dict(name="TestC02", quick=400, thorough=4000)],
+     tests=[dict(name="TestC02", quick=400, thorough=1200)],
      rule="rapid-generated single-bucket KV histories in HintBPTSparseIdxMode (1-25 steps; write transactions of 1-4 (wide key universes of 8-30 keys, 25% of cases: 1-8) Put/PutWithTimestamp/Delete incl. exact-fill records; reopen 20% of steps; segment sizes 120/200/333 so most keys live in sealed segments; FileIO/MMap x loading mode x sync), checked after every step against the ordered-map-with-TTL model: Get of every key, GetAll, PrefixScan(p,0,ScanNoLimit) of every key prefix, RangeScan over drawn straddling bounds, including reads before the first write. Non-trivial: >=1 rotation and a deleted/expired key next to live keys.",
      assumptions=["single bucket, so bucket+key concatenations are unambiguous (the ambiguous case is C04)"])
 
 prop("C04",
      level="exploration",
-     tests=[dict(name="TestC04", quick=1500, thorough=15000)],
+     tests=[dict(name="TestC04", quick=1500, thorough=4000)],
      rule="rapid-generated histories over 2-3 buckets drawn from adversarial names {b, bb, b|, \"\", ab, a} (prefixes of each other, empty), KV in all three index modes, lists/sets/sorted sets in KeyVal mode, one call per transaction for lists/sets/sorted sets, and a third of the steps one transaction of 2-5 key/value writes spread over the buckets (so one transaction writes pairs whose bucket+key concatenations coincide), reopen steps. Oracle A (metamorphic): after every write transaction the full observation of every (structure,bucket) it does not name is unchanged; oracle B: the reference model with per-bucket maps. Non-trivial: >=2 buckets where one name is a prefix of another.",
      assumptions=["known finding c04-sparse-bucket-key-concatenation: sparse-mode histories whose bucket names are prefix-related run in KeyOnly mode instead (counted under excluded)"],
      technique="metamorphic + model-based property testing (rapid)")
 
 prop("C08",
      level="exploration",
-     tests=[dict(name="TestC08", quick=1200, thorough=15000)],
+     tests=[dict(name="TestC08", quick=1200, thorough=3000)],
      rule="rapid-generated histories mixing KV (all index modes) and list/set/sorted-set calls (KeyVal mode) in transactions of 1-4 calls (reads and writes, so calls that are valid when made but no-ops at commit occur: second pop of a one-element list, LSet/LTrim/LRem after a pop, SRem of a missing key), exact-fill records, Close/Open at drawn points and at the end. Also generated: two-step patterns on a fresh list (push n; then one transaction that pops p elements and calls LSet/LTrim/LRem/pop with arguments valid when called but referring to elements that are gone when applied). Oracle (metamorphic, model-free, STRICT: error, empty and zero results are distinct; includes SHasKey and the expiry instant of every live pair): the full observation of every bucket and structure just before Close equals the one just after Open. Non-trivial: a reopen preceded by a committed transaction that touches >=2 structures, contains SMove/SPop, or mutates the same list twice.",
      assumptions=["histories in which a call panics are skipped (C20's domain) and counted"],
      technique="metamorphic property testing (rapid)")
 
 prop("C19",
      level="exploration",
-     tests=[dict(name="TestC19", quick=350, thorough=3000)],
+     tests=[dict(name="TestC19", quick=350, thorough=800)],
      rule="each rapid-generated mixed history (KV + list/set/sorted-set calls, reads inside transactions, reopen steps, exact-fill records, segment sizes 120-1024) is executed under all 8 combinations RWMode x StartFileLoadingMode x SyncEnable in KeyVal mode, and its KV part under KeyVal (reference), KeyOnly x 8 and sparse x 8 combinations; per-call results, commit outcomes and the observation after every step are compared across configurations (differential). Non-trivial: history with >=1 rotation and >=1 reopen.",
      assumptions=["SPop is not generated (it may return any member, so two runs may legitimately diverge)",
                   "known finding c04-sparse-bucket-key-concatenation: sparse configurations are skipped for histories with prefix-related bucket names (counted)"],
@@ -75,28 +75,28 @@ CRASH_ASSUMPTIONS = [
 
 prop("C09",
      level="fault_enumeration", engine="E1+E3",
-     tests=[dict(name="TestC09", quick=250, thorough=2500)],
+     tests=[dict(name="TestC09", quick=250, thorough=700)],
      rule="rapid-generated histories (KV in all index modes, lists/sets/sorted sets in KeyVal mode, reads inside transactions so commit-time no-ops occur, reads of a never-written bucket through every read API, exact-fill records, Merge calls, reopen steps, every RWMode/StartFileLoadingMode/sync/segment size 120..1024). Oracle: (i) Open with the same options succeeds after the clean Close; (ii) for RAM index modes every crash image of the recorded file-mutation trace (every event position x torn prefixes of every write at each record-field boundary) is materialised and Open must succeed on it and a full read must not panic; every 3rd torn image and every 4th other image is then CONTINUED: one more put (1 byte / 60% of a segment / a whole segment, so the log rotates past whatever the crash left at the tail), Close, Open again - which must succeed and show the recovered contents plus the new pair. Non-trivial: a workload with more than 3 distinct crash images; inner_enumerations counts the images opened.",
      assumptions=CRASH_ASSUMPTIONS,
      technique="record-and-replay crash-point enumeration over rapid-generated workloads")
 
 prop("C10",
      level="fault_enumeration", engine="E3",
-     tests=[dict(name="TestC10", quick=400, thorough=4000)],
+     tests=[dict(name="TestC10", quick=400, thorough=1000)],
      rule="rapid-generated workloads of 2-10 steps (write transactions of 1-5 calls over KV in RAM index modes and list/set/sorted-set calls in KeyVal mode, explicit rollbacks, commits that fail because of an oversized entry (a value of SegmentSize+1 bytes, or an entry that is exactly 1-3 bytes too large) at a drawn position, reopen steps; FileIO/MMap x sync x segment size). The file-mutation trace is recorded with commit markers and the observation O_i after each returned commit; every crash image (every event position x torn prefixes at every record-field boundary, deduplicated by content) is opened and its full observation must equal O_c (c = commits returned before the crash point) or O_c+1 when a transaction that later committed was in flight; a third of the torn images and a quarter of the others are continued after recovery (one more put of 1 byte / 60% / 100% of a segment, Close, Open: contents unchanged, new pair present). Oversized entries are Seg+1-byte values or entries exactly 1-2 bytes too large. Non-trivial: a crash point strictly inside the Commit of a multi-record transaction or a torn prefix ending inside the 42-byte header.",
      assumptions=CRASH_ASSUMPTIONS,
      technique="record-and-replay crash-point enumeration with a recorded-observation oracle")
 
 prop("C16",
      level="fault_enumeration", engine="E3",
-     tests=[dict(name="TestC16", quick=500, thorough=5000)],
+     tests=[dict(name="TestC16", quick=500, thorough=3000)],
      rule="rapid-generated pre-merge histories (KV with TTL/deletes and sets; 2-12 steps; segment sizes 120-333 so several files take part; RAM index modes) with Merge calls at drawn points (22% of steps); every crash image at every file-mutation point between Merge's start and return (incl. torn prefixes of the rewrite transactions' records and points between a rewrite and the removal of the old segment) is opened and its observation must equal the observation before Merge. Non-trivial: workload with more than 2 crash points inside Merge.",
      assumptions=CRASH_ASSUMPTIONS + ["known finding c16-merge-crash-list-zset: list and sorted-set calls are dropped from the workloads (counted under excluded)"],
      technique="record-and-replay crash-point enumeration inside Merge")
 
 prop("C15",
      level="exploration",
-     tests=[dict(name="TestC15", quick=800, thorough=8000)],
+     tests=[dict(name="TestC15", quick=800, thorough=4000)],
      rule="rapid-generated histories (KV with TTL/deletes/overwrites, sets, sorted sets, rollbacks, and commits that fail with an injected write error at record 0-3 (both twins get the same fault; the records written before it stay on disk, uncommitted); transactions of 1-4 (wide key universes: 1-8) calls; both RAM index modes; segment sizes 120-333) with Merge at drawn points (18% of steps, so twice in a row and failing '<2 files' merges occur), more writes afterwards and reopen steps incl. a final one. Oracle (differential twin): database A runs the history, database B the same history without the Merge calls; per-call results and the full observation (incl. the expiry instant of every live pair) must be identical after every step. Non-trivial: >=1 successful Merge over >=2 segments in a history that deleted, overwrote, expired or rolled back something.",
      assumptions=["SPop is not generated (non-deterministic by specification)",
                   "known finding c15-merge-list-duplication: list calls are dropped from the histories (counted under excluded)"],
@@ -104,7 +104,7 @@ prop("C15",
 
 prop("C11",
      level="fault_enumeration", engine="E3",
-     tests=[dict(name="TestC11", quick=500, thorough=5000)],
+     tests=[dict(name="TestC11", quick=500, thorough=3000)],
      rule="as C10 with SyncEnable=true and with Merge calls (10% of steps, RAM index modes; most fail with 'at least 2 files', some rewrite segments), but every crash point is expanded into power-loss images: each file reverts to its content at its last sync event (absent if never synced) and the truncations, writes and removals since then are volatile - every subset of them is applied when there are <=3 (otherwise none/all/each single one kept or dropped/every prefix), each also with the last kept write torn in half; the image is opened and must show O_c or O_c+1. Non-trivial: workload with at least one position that has volatile operations and more than 3 distinct images.",
      assumptions=CRASH_ASSUMPTIONS + ["power-loss model: a sync of a file makes its whole content, its length and its directory entry durable; directories are durable when created",
                                       "removals reach the disk in the order they were issued (journalled directory updates): the undone removals are a suffix"],
@@ -112,7 +112,7 @@ prop("C11",
 
 prop("C12",
      level="fault_enumeration", engine="E1+E3",
-     tests=[dict(name="TestC12", quick=400, thorough=4000)],
+     tests=[dict(name="TestC12", quick=400, thorough=1500)],
      rule="rapid-generated mixed histories (<=8 steps, KV in all index modes, structures in KeyVal mode) with one 'bad' transaction of 1-4 state-changing calls inserted at a drawn position, of a drawn kind: function returns an error after k calls (db.Update), explicit Rollback, an oversized entry at a drawn position, an injected write error at EVERY write event of its Commit in turn (each with 0, 7 and 43 bytes written before the error), an injected sync error at every sync event in turn, a read-only transaction calling every mutating API, or calls of every mutating API on the transaction after Commit/Rollback. 8% of the other steps are Merge calls on every database (what the bad transaction left in the segments must not be brought to life). The bad transaction prefers the keys the history uses and may contain SPop (except for sync faults); after a failed db.Update/db.View the database lock is probed (a write transaction must be able to begin: otherwise DEADLOCK). The bad transaction runs on the main database only; a twin runs the history without it; per-call results and the full observation of main and twin must agree after every step, in the process and after reopen; mutating calls in read-only/finished transactions must return errors; after a sync error the state must equal the twin without the transaction or a second twin that committed it. Non-trivial: the bad transaction contains at least one call that would change the observation (and, for fault kinds, at least one fault plan fired).",
      assumptions=["a failed write leaves the record physically incomplete (if the omitted suffix is all zero bytes the torn prefix is shortened, because the zero-filled segment would already hold the complete record)",
                   "known finding sparse-index-files-not-crash-consistent: I/O-fault cases run in KeyOnly instead of sparse mode (counted under excluded)",
@@ -121,21 +121,21 @@ prop("C12",
 
 prop("C13",
      level="exploration",
-     tests=[dict(name="TestC13", quick=4000, thorough=60000)],
+     tests=[dict(name="TestC13", quick=4000, thorough=20000)],
      rule="rapid-generated histories of 1-12 write transactions of 2-6 calls each on one structure (KV get/put/del/getall, every list, set and sorted-set API incl. pops/peeks/ranges) over 1-2 keys, so calls that read or pop what the same transaction already modified are the norm. Oracle: the sequential reference model - every in-transaction return value and the full re-read after Commit must be explained by running the calls one after another on the state at Begin; under the recorded finding c13-snapshot-reads a second, deviant explanation is accepted and counted (return values judged on the state at Begin; the state after Commit must be reachable by applying the logged calls in order, a call whose precondition does not hold on the running state being a no-op; candidate states are enumerated). A case explained by neither is a violation. Non-trivial: a transaction with a read/pop of a (structure,bucket,key) that an earlier call of the same transaction modified.",
      assumptions=["known finding c13-snapshot-reads is applied as a named model deviation; deviations_applied counts the transactions that needed it"],
      technique="model-based property testing (rapid) with a strict and a deviant reference model")
 
 prop("C03",
      level="exploration",
-     tests=[dict(name="TestC03", quick=700, thorough=8000)],
+     tests=[dict(name="TestC03", quick=700, thorough=2000)],
      rule="rapid-generated KV histories (puts, deletes, expired and live TTL puts over 3-8 keys (10% of cases 9-18 keys, so pages cross B+ tree leaves) on the alphabet {a,b,c}, reopen steps, all three index modes); then for every prefix of every written key ALL pages are enumerated: PrefixScan(prefix, offset, limit) for offset 0..n+1 and limit in {ScanNoLimit} U 1..n+1 (n = keys ever written under the prefix) and PrefixSearchScan(prefix, regexp, 0, limit) for every such limit; each page must equal live_prefixed[offset:offset+limit] of the model ('not found' only when that slice is empty). Non-trivial: under some prefix a deleted or expired key precedes a live key; inner_enumerations counts the pages checked.",
      assumptions=["limit 0 and limits below -1 are unspecified and not generated"],
      technique="model-based property testing (rapid) with exhaustive page enumeration per generated history")
 
 prop("C22",
      level="exploration",
-     tests=[dict(name="TestC22", quick=1500, thorough=15000)],
+     tests=[dict(name="TestC22", quick=1500, thorough=6000)],
      rule="for each rapid-generated KV history and creator mode (all 3), a directory in a drawn state is produced - empty, freshly opened and closed, written (history executed), merged (history + Merge, RAM creators), or crashed (a drawn prefix of the recorded file-mutation trace) - and then opened, on a copy, with EACH of the three index modes (the 3x3 mode pairs are enumerated per case). Oracle: sparse<->RAM on a directory holding data => Open returns an error; whenever Open returns an error the directory tree (names, sizes, bytes) is identical before and after; RAM<->RAM on KV data => Open succeeds and the observation equals the source's; a directory holding no data either fails (tree unchanged) or opens empty. Non-trivial: directory with >=2 segments or a crash image.",
      assumptions=["'holds data' = some data segment contains a non-zero byte"],
      technique="property-based testing (rapid) with enumeration of mode pairs and directory states")
@@ -148,29 +148,29 @@ CONC_ASSUMPTIONS = [
 
 prop("C14",
      level="exploration", engine="E4", race=True,
-     tests=[dict(name="TestC14", quick=600, thorough=4000)],
+     tests=[dict(name="TestC14", quick=600, thorough=2000)],
      rule="rapid-generated concurrent programs: 2-16 goroutines (at least one writer and one reader) x 1-6 transactions each on 1-2 databases open in the same process, all three index modes x RWMode x loading mode x sync x segment size 400/2000/8192, db.Update/db.View and manual Begin/Commit styles, a drawn yield plan (runtime.Gosched at every n-th file-mutation hook call and between the two passes of a reader). Version-stamped workload: a writer reads key ver=v, writes ver=v+1 and 1-3 drawn keys stamped v+1 (plus list/set/sorted-set appends in KeyVal mode); every writer also re-scores one sorted-set member to its version; 1 in 7 write transactions must fail (the function returns an error, or an entry larger than a segment makes Commit fail) and must leave no trace; a reader reads ver, the keys, RangeScan, PrefixScan, PrefixSearchScan with its own regular expression, the list, the set and the re-scored member, twice. 1 in 8 RAM-mode programs run on a database that was merged once before the goroutines start. Oracle: committed writers carry exactly the versions 1..W, consistent with real time; every reader observes exactly the state after one version v inside its real-time window and both passes agree; the final state equals the serial replay; the binary is built with -race and every race report with a nutsdb frame is a violation; deadlock watchdog. Non-trivial: >=2 pairs of transactions on the same database overlapped in real time.",
      assumptions=CONC_ASSUMPTIONS,
      technique="randomized concurrent histories (rapid-generated programs and yield plans) under the race detector with an exact strict-serializability oracle")
 
 prop("C17",
      level="exploration", engine="E4", race=True,
-     tests=[dict(name="TestC17", quick=500, thorough=4000)],
+     tests=[dict(name="TestC17", quick=500, thorough=2000)],
      rule="rapid-generated concurrent programs as in C14 (2-8 worker goroutines x 1-6 version-stamped transactions, RAM index modes, segment sizes 300/400/1000 so that several segments exist) plus one goroutine that calls DB.Merge 1-4 times, each call released after a drawn amount of transaction progress; drawn yield plan. Oracle: every Merge returns nil or the 'at least 2 files' error; the strict-serializability oracle of C14 over all transactions (versions 1..W, snapshot readers inside their real-time window, both passes equal, scans and set membership agree with the version), final state = serial replay; -race build, every report with a nutsdb frame is a violation; deadlock watchdog. Non-trivial: a Merge that returned nil (it rewrote/removed segments) and overlapped at least one transaction in real time.",
      assumptions=CONC_ASSUMPTIONS + ["known finding c15-merge-list-duplication (Merge duplicates list elements even without concurrency): the writers' list append is dropped, the set and sorted-set appends stay (counted under excluded)"],
      technique="randomized concurrent histories with Merge under the race detector, strict-serializability oracle")
 
 prop("C18",
      level="exploration", engine="E1+E4", race=True,
-     tests=[dict(name="TestC18", quick=800, thorough=4000, race=False),
-            dict(name="TestC18Conc", quick=400, thorough=2000)],
+     tests=[dict(name="TestC18", quick=800, thorough=2500, race=False),
+            dict(name="TestC18Conc", quick=400, thorough=1000)],
      rule="(a) rapid-generated mixed histories (KV in all three index modes, lists/sets/sorted sets in KeyVal mode, FileIO/MMap x loading mode x sync x segment size 200..8192, reopen and Merge steps) with 1-3 Backup steps at drawn positions: Backup into a new directory must succeed, the copy must open with the same options, its full observation must equal the source's observation taken just before the Backup, the source's observation must not change, and the copy is re-opened and compared again at the end of the history (after the source has written, merged, reopened); (b) concurrent: 2-8 goroutines of version-stamped writers and readers (all index modes) plus 1-2 goroutines calling Backup after a drawn amount of progress; each copy is opened and judged as a reader: it must show exactly the state after one version v (keys, scans, list, set) with v inside the real-time window of the Backup call; -race build. 1 in 8 concurrent programs are slow-copy cases: the database first gets 2-5 sealed 4 MiB segments and, for every Backup, a late writer starts a write transaction as soon as it sees the first copied file in the destination (provably after the copy began): its version must not be in the copy. Non-trivial: (a) a backup taken when >=2 segments exist, (b) a Backup call that overlapped a write transaction in real time; inner_enumerations counts the backups opened in (a).",
      assumptions=CONC_ASSUMPTIONS + ["known finding c15-merge-list-duplication: sequential histories that contain list calls run without their Merge steps (counted under excluded)"],
      technique="metamorphic (copy vs source observation) property testing + concurrent histories with a snapshot oracle")
 
 prop("C20",
      level="exploration",
-     tests=[dict(name="TestC20", quick=5000, thorough=25000),
+     tests=[dict(name="TestC20", quick=5000, thorough=20000),
             dict(name="FuzzAPIProgram", tier="quick", quick=1),  # seeds + committed corpus, plain run
             dict(name="FuzzAPIProgram", tier="thorough", fuzz=True, thorough=300, minimize="20x")],
      rule="rapid-generated programs over EVERY exported method of DB and Tx (all 53 Tx methods incl. FindTxIDOnDisk/FindOnDisk/FindLeafOnDisk, DB.Update/View/Begin/Merge/Backup/Close): a population phase fills key/value pairs, a list, two sets and a sorted set in the empty-named bucket and in bucket b (all three index modes, segment sizes 200/512/8192 so commits rotate), then 1-10 steps: writable or read-only transactions (managed and manual, commit or rollback) of 1-5 calls whose arguments are drawn from boundary-heavy domains (nil/empty/separator/255-, 256- and 70000-byte keys and buckets, MinInt64..MaxInt64 indexes, counts, offsets and limits, NaN/+-Inf/+-MaxFloat64/-0 scores, nil and populated range options, invalid regular expressions, extreme TTLs and timestamps), 1-3 further calls on the transaction after its Commit/Rollback, Close (then every kind of step on the closed database), reopen, Merge and Backup. Oracle: no call, Begin, Commit, Rollback, Update/View, Merge, Backup, Close or Open panics (so in particular a call that succeeded never makes the later Commit panic). Non-trivial: a program with an extreme argument aimed at a populated bucket, a call on a finished transaction, or a step after Close; inner_enumerations counts the API calls made.",
@@ -180,8 +180,8 @@ prop("C20",
 
 prop("C21",
      level="fault_enumeration", shards=6,
-     tests=[dict(name="TestC21", quick=100, thorough=600, timeout_quick=900),
-            dict(name="TestC21API", quick=400, thorough=4000),
+     tests=[dict(name="TestC21", quick=100, thorough=300, timeout_quick=900),
+            dict(name="TestC21API", quick=400, thorough=2000),
             dict(name="FuzzEntryImage", tier="quick", quick=1), dict(name="FuzzRootIdxImage", tier="quick", quick=1),
             dict(name="FuzzBucketMetaImage", tier="quick", quick=1), dict(name="FuzzRecordFlips", tier="quick", quick=1),
             dict(name="FuzzEntryImage", tier="thorough", fuzz=True, thorough=120, minimize="5s"),
